@@ -309,7 +309,7 @@ func c11Process(c *vk.Ctx, r *rand.Rand, round int) bool {
 			udpIDs = append(udpIDs, id)
 			umu.Unlock()
 			ucl.Send(ssUDP(kStay, randBytes(ur, kStay.Codec().C.SaltSize), utgt.addr(), mkUDPPayload(id, 1, 16, 24)), retainedUDP)
-			time.Sleep(time.Duration(500+ur.Intn(1500)) * time.Microsecond)
+			time.Sleep(time.Duration(100+ur.Intn(500)) * time.Microsecond)
 		}
 	}()
 
@@ -575,7 +575,7 @@ func c11InProcess(c *vk.Ctx, r *rand.Rand) bool {
 func c11Run(c *vk.Ctx) {
 	lab.MustSetup(c.RunDir)
 	r := c.Rng
-	for round := 0; round < c.N(2, 5); round++ {
+	for round := 0; round < c.N(3, 6); round++ {
 		if !c11Process(c, r, c.Batch*10+round) {
 			return
 		}
